@@ -22,7 +22,7 @@ impl Check for C09 {
         vec!["rollback flag and max_rollback_log_len are held constant across reopens".into()]
     }
     fn cases(tier: Tier) -> u32 {
-        tier.pick(800, 10000)
+        tier.pick(4800, 48000)
     }
     fn strategy(tier: Tier) -> BoxedStrategy<History> {
         history_strategy(HistParams {
